@@ -51,6 +51,13 @@ def gen_events(rng, n, rows, cols):
             keys = rng.choice([["F3"] + ["Down"] * k + ["Enter"], ["Down"] * k + ["Enter"], ["Up"] * k + ["Enter"], ["F3", "Down", "Enter", "F3", "Enter"],
                                ["Tab"] * k, ["-"] * k + ["+"] * k, ["F3"] + ["Down"] * k + ["F1", "Enter"], [rng.choice(KEYNAMES) for _ in range(k)]])
             ev.append(("burst", ",".join(keys)))
+        elif r < 0.875:
+            # a key held down (auto-repeat): hundreds of zoom / pan / selection steps in one direction
+            ev.append(("repeat", rng.choice(["+", "+", "-", "-", "Up", "Left", "Down", "Tab"]), rng.choice([40, 140, 300])))
+        elif r < 0.89:
+            # the pointer moving steadily across the window (or a wheel being spun): events a few
+            # milliseconds apart for most of a second, so the event loop never sees a quiet 10 ms
+            ev.append(("stream", rng.choice(["move", "drag", "scrollup", "scrolldown"]), rng.choice([150, 300])))
         elif r < 0.92:
             ev.append(("resize",) + rng.choice(SIZES))
         elif r < 0.97:
@@ -154,11 +161,25 @@ def run_session(col, binpath, rng, tag, scratch, n_events):
                 sess.p.write(ev[1])
             elif ev[0] == "burst":
                 sess.p.write(b"".join(procs.KEYS[k] for k in ev[1].split(",")))
+            elif ev[0] == "repeat":
+                # written in chunks, the way a terminal delivers auto-repeat
+                for i in range(0, ev[2], 20):
+                    sess.p.write(procs.KEYS[ev[1]] * min(20, ev[2] - i))
+                    sess.p.pump(0.01)
+            elif ev[0] == "stream":
+                c0, r0 = rng.randrange(2, max(3, cols - 2)), rng.randrange(2, max(3, rows - 2))
+                if ev[1] == "drag":
+                    sess.p.write(procs.mouse("down", c0, r0))
+                for i in range(ev[2]):
+                    sess.p.write(procs.mouse(ev[1], (c0 + i) % max(1, cols), (r0 + i // 7) % max(1, rows)))
+                    sess.p.pump(0.003)
+                if ev[1] == "drag":
+                    sess.p.write(procs.mouse("up", c0, r0))
             elif ev[0] == "wait":
                 sess.p.pump(ev[1])
             sess.p.pump(rng.choice([0.02, 0.03, 0.08]))
             col.count("events")
-            col.cls(f"event|{ev[0]}" + (f"|{ev[1]}" if ev[0] in ("key", "mouse") else ""))
+            col.cls(f"event|{ev[0]}" + (f"|{ev[1]}" if ev[0] in ("key", "mouse", "repeat", "stream") else ""))
             if not sess.p.alive():
                 sess.p.pump(0.3)
                 loc = sess.panic_location()
@@ -333,6 +354,6 @@ def main(a, lcol, col, run_all, scratch, START):
     ev = col.counters.get("events", 0) + col.counters.get("cli_cases", 0) + col.counters.get("quits_checked", 0)
     col.sample({"session": "40 aircraft, traffic running, --filter-time 1, 150 events", "events": ["key:F3", "key:Down", "mouse:drag:17:9", "resize:1:1", "raw:b'\\x1b[<'", "key:Enter"], "then": "q -> exit status, termios, cursor/mouse modes"})
     return vlib.finish(col, "C17", a.tier, a.seed, "exploration",
-        "radar on a pseudo-terminal: seeded random sequences (10-300 events) over keys (F1-F5, Tab, l i h t n, - +, arrows, Enter, others), SGR mouse reports (down/up/drag/scroll/right/move at tab hit boxes, touchscreen buttons, anywhere, outside the window), resizes (1x1 ... 300x100) and raw bytes / broken escape sequences, x tracked set 0/1/3/10/40 x traffic stopped/running x --filter-time default/0/1 x option subsets; process must stay alive until quit, then exit 0 with termios and cursor/mouse modes restored; quit while 'Waiting for connection'; 15 invalid command-line values must end in a non-panic error exit; distinct_nontrivial = distinct (event kind/key, session class, CLI case) cells exercised",
+        "radar on a pseudo-terminal: seeded random sequences (10-300 events) over keys (F1-F5, Tab, l i h t n, - +, arrows, Enter, others), SGR mouse reports (down/up/drag/scroll/right/move at tab hit boxes, touchscreen buttons, anywhere, outside the window), held keys (40-300 repeats), steady pointer streams (150-300 reports a few ms apart), resizes (1x1 ... 300x100) and raw bytes / broken escape sequences, x tracked set 0/1/3/10/40 x traffic stopped/running x --filter-time default/0/1 x option subsets; process must stay alive until quit, then exit 0 with termios and cursor/mouse modes restored; quit while 'Waiting for connection'; 15 invalid command-line values must end in a non-panic error exit; distinct_nontrivial = distinct (event kind/key, session class, CLI case) cells exercised",
         ["the terminal is a pty with a minimal VT model; 'as it found it' = termios flags equal, cursor visible, mouse reporting modes off", "exit deadlines (20 s) are generous; a process that never exits after quit is a violation, a driver that cannot connect is inconclusive"],
         a.verif, START, ev, len(col.classes), min_evaluations=50)
